@@ -20,18 +20,22 @@ ASSUMPTIONS = ["single-threaded harness-owned loop: 'input stopped, consumer fre
 @st.composite
 def case_strategy(draw, tier="quick"):
     nodes = [{"k": "entry", "u": [], "p": {}, "t": "E"}]
-    if draw(st.booleans()):
+    maps = draw(st.sampled_from([(0, 0), (0, 0), (1, 0), (0, 1), (1, 1)]))
+    if maps[0]:
         nodes.append({"k": "map", "u": [len(nodes) - 1], "p": {"f": "inc"}, "t": "E"})
     nodes.append({"k": "latest", "u": [len(nodes) - 1], "p": {}, "t": "E"})
-    if draw(st.booleans()):
+    if maps[1]:
         nodes.append({"k": "map", "u": [len(nodes) - 1], "p": {"f": "dbl"}, "t": "E"})
     nodes.append({"k": "sink", "u": [len(nodes) - 1], "p": {}, "t": None})
+    # value code 6 = a plain None as the element (only without map nodes: None has no provenance,
+    # arrivals and deliveries are then matched by value)
+    top = 6 if maps == (0, 0) and draw(st.booleans()) else 5
     spec = {"nodes": nodes, "fb": None}
     mode = draw(st.sampled_from(["fut", "coro", "fut", "sync"]))
     lo = draw(st.sampled_from([1, 3, 8]))
     acts = draw(st.lists(st.one_of(
-        st.tuples(st.just("emit"), st.just(0), st.integers(0, 5)),
-        st.tuples(st.just("emit"), st.just(0), st.integers(0, 5)),
+        st.tuples(st.just("emit"), st.just(0), st.integers(0, top)),
+        st.tuples(st.just("emit"), st.just(0), st.integers(0, top)),
         st.tuples(st.just("fin"), st.just(0), st.just(0))), min_size=lo, max_size=30))
     # invocations during which the consumer feeds a follow-up element back into the entry
     # before it returns (a re-entrant arrival, while latest is synchronously handing over)
@@ -88,16 +92,31 @@ def execute(case):
     ev = run.log.events
     sink = len(spec["nodes"]) - 1
     # what latest() received, in arrival order (ids of the source emissions)
-    arrivals = [min(prov(e[3])) for e in ev if e[0] == "arr" and e[1] == lat]
-    delivered = [min(prov(e[3])) for e in ev if e[0] == "cc" and e[1] == sink]
+    def ident(x):
+        return "None" if x is None else min(prov(x))
+    arrivals = [ident(e[3]) for e in ev if e[0] == "arr" and e[1] == lat]
+    delivered = [ident(e[3]) for e in ev if e[0] == "cc" and e[1] == sink]
     v = []
-    pos = {k: i for i, k in enumerate(arrivals)}
-    order = [pos.get(d, -1) for d in delivered]
-    if any(b <= a for a, b in zip(order, order[1:])):
-        what = "delivered-twice" if len(set(delivered)) < len(delivered) else "reordered"
-        v.append(("%s:latest:%s" % (ID, what), "arrivals %s delivered %s" % (arrivals, delivered)))
-    if any(d not in arrivals for d in delivered):
-        v.append(("%s:latest:invented" % ID, "delivered %s" % delivered))
+    # in-order subsequence: match every delivery to the earliest arrival of the same identity
+    # after the previous match (identities are unique except for None, for which the earliest
+    # match is the most permissive one)
+    order, nxt = [], 0
+    for d in delivered:
+        j = next((i for i in range(nxt, len(arrivals)) if arrivals[i] == d), None)
+        if j is None:
+            order = None
+            break
+        order.append(j)
+        nxt = j + 1
+    if order is None:
+        if any(d not in arrivals for d in delivered):
+            v.append(("%s:latest:invented" % ID, "delivered %s" % delivered))
+        else:
+            nn = [d for d in delivered if d != "None"]
+            what = "delivered-twice" if len(set(nn)) < len(nn) or \
+                delivered.count("None") > arrivals.count("None") else "reordered"
+            v.append(("%s:latest:%s" % (ID, what), "arrivals %s delivered %s" % (
+                arrivals, delivered)))
     if arrivals and (not delivered or delivered[-1] != arrivals[-1]):
         v.append(("%s:latest:newest-never-delivered" % ID,
                   "arrivals %s, delivered %s; consumer free and loop idle at the end"
@@ -117,8 +136,10 @@ def execute(case):
         classes.append("arrival-while-busy")
     if len(delivered) < len(arrivals):
         classes.append("something-dropped")
-    if any(k > 1000 for k in arrivals):
+    if any(k != "None" and k > 1000 for k in arrivals):
         classes.append("re-entrant-arrival")
+    if "None" in arrivals:
+        classes.append("None-element")
     if case.get("detach"):
         classes.append("detach-reattach")
     return Result(v, nontrivial=busy, classes=classes)
